@@ -27,7 +27,9 @@ type Case struct {
 	Kind    string `json:"kind"`
 	CapReq  int    `json:"cap_req"`
 	CapCtrl int    `json:"cap_ctrl"`
-	Steps   []Step `json:"steps"`
+	// the way the constructor call is written (qadapt.Ctor*): all ways ask for the same queue
+	Ctor  int    `json:"ctor,omitempty"`
+	Steps []Step `json:"steps"`
 }
 
 // ---------------------------------------------------------------------------
@@ -64,6 +66,7 @@ func genFifo(t *rapid.T, kind string) Case {
 	c := Case{Kind: kind}
 	c.CapReq = rapid.SampledFrom([]int{0, 1, 2, 3, 5}).Draw(t, "capreq")
 	c.CapCtrl = rapid.SampledFrom([]int{0, 1, 2}).Draw(t, "capctrl")
+	c.Ctor = rapid.IntRange(0, qadapt.NCtors-1).Draw(t, "ctor")
 	m := &fifoModel{kind: kind, caps: [2]int{c.CapReq, c.CapCtrl}}
 	isSync, isMQ := kind == qadapt.KindSync, kind == qadapt.KindMQ
 	if isSync {
@@ -173,8 +176,12 @@ func applyFifo(m *fifoModel, st Step, v int, isSync bool) (e fifoExpect) {
 	return e
 }
 
-func execFifo(c Case, res *vkit.Result) *vkit.Result {
-	q := qadapt.New(c.Kind, c.CapReq, c.CapCtrl)
+func execFifo(c Case, res *vkit.Result, cur *func() string, release *func()) *vkit.Result {
+	q := qadapt.NewCtor(c.Kind, c.CapReq, c.CapCtrl, anywayPause, c.Ctor)
+	*release = q.Close
+	if c.Ctor != qadapt.CtorPlain {
+		res.Class(fmt.Sprintf("constructor-written-way-%d", c.Ctor))
+	}
 	isSync := c.Kind == qadapt.KindSync
 	m := &fifoModel{kind: c.Kind, caps: [2]int{c.CapReq, c.CapCtrl}}
 	if isSync {
@@ -204,6 +211,7 @@ func execFifo(c Case, res *vkit.Result) *vkit.Result {
 		}
 		v := 1000 + i
 		what := fmt.Sprintf("step %d %+v on %s (cap req %d ctrl %d; model req %v ctrl %v closed %v)", i, st, c.Kind, c.CapReq, c.CapCtrl, m.lanes[0], m.lanes[1], m.closed)
+		*cur = func() string { return what }
 		switch st.Op {
 		case "add", "prior":
 			add := q.Add
@@ -218,8 +226,8 @@ func execFifo(c Case, res *vkit.Result) *vkit.Result {
 			e := applyFifo(m, st, v, isSync)
 			if st.Op == "add" && st.Anyway && q.AddAnyway != nil && e.outcome != qadapt.Full {
 				// (on a full lane the Anyway entry points retry forever: a blocking call, not part of sequential histories)
-				add = q.AddAnyway
 				res.Class("add-through-anyway-entry")
+				add = q.AddAnyway // (should it poll, the guard around the history decides)
 			}
 			got := add(st.Lane, v)
 			if got != e.outcome {
@@ -337,6 +345,9 @@ func execFifo(c Case, res *vkit.Result) *vkit.Result {
 		}
 	}
 	// conservation: close, then drain in order; accepted == handed out + residue
+	*cur = func() string {
+		return fmt.Sprintf("final close and drain of %s (model req %v ctrl %v)", c.Kind, m.lanes[0], m.lanes[1])
+	}
 	q.Close()
 	m.closed = true
 	for !m.empty() {
@@ -377,6 +388,9 @@ func genPriority(t *rapid.T) int {
 func genPri(t *rapid.T) Case {
 	c := Case{Kind: qadapt.KindPri}
 	c.CapReq = rapid.SampledFrom([]int{0, 1, 2, 3, 5, 8}).Draw(t, "cap")
+	if rapid.Bool().Draw(t, "decoy") {
+		c.Ctor = qadapt.CtorDecoy
+	}
 	n := rapid.IntRange(1, 40).Draw(t, "n")
 	for i := 0; i < n; i++ {
 		if rapid.IntRange(0, 9).Draw(t, "what") < 6 {
@@ -388,8 +402,8 @@ func genPri(t *rapid.T) Case {
 	return c
 }
 
-func execPri(c Case, res *vkit.Result) *vkit.Result {
-	q := qadapt.New(qadapt.KindPri, c.CapReq, 0)
+func execPri(c Case, res *vkit.Result, cur *func() string, release *func()) *vkit.Result {
+	q := qadapt.NewCtor(qadapt.KindPri, c.CapReq, 0, anywayPause, c.Ctor)
 	var model []priEntry
 	seq := 0
 	best := func() int {
@@ -490,14 +504,17 @@ func Exec(c Case) *vkit.Result {
 			ok = true
 		}
 	}
-	if !ok || c.CapReq < 0 || c.CapCtrl < 0 || c.CapReq > 1000 || c.CapCtrl > 1000 {
+	if !ok || c.CapReq < 0 || c.CapCtrl < 0 || c.CapReq > 1000 || c.CapCtrl > 1000 || c.Ctor < 0 || c.Ctor >= qadapt.NCtors {
 		res.Skip("malformed-config")
 		return res
 	}
-	if c.Kind == qadapt.KindPri {
-		return execPri(c, res)
-	}
-	return execFifo(c, res)
+	return guarded(func(res *vkit.Result, cur *func() string, release *func()) {
+		if c.Kind == qadapt.KindPri {
+			execPri(c, res, cur, release)
+		} else {
+			execFifo(c, res, cur, release)
+		}
+	})
 }
 
 func part(name, kind string) *vkit.Part[Case] {
